@@ -2522,3 +2522,127 @@ func init() {
 			return out
 		}})
 }
+
+// ---- ZEROCOND
+//
+// A branch condition that reads a local variable at a point where only its zero value can reach it is a constant:
+// one arm is dead. In code that distinguishes cases on several similarly named indexes this is how "tested the wrong
+// variable" looks (`var j int; if i > 0 { … } else if j < 0 { … }`): it compiles, and the case guarded by the dead
+// arm — negative indexes, say — silently takes the other arm.
+//
+// Rule: no if / for / switch-case condition reads a local variable (not a parameter; address never taken; not assigned
+// in a closure) whose set of reaching definitions at that point is empty (reaching definitions over go/cfg).
+
+func scanZeroCond(c *core.Ctx) []ob {
+	var out []ob
+	n := 0
+	c.FuncDecls(func(pk *packages.Package, file *ast.File, fd *ast.FuncDecl) {
+		if fd.Body == nil || fileIsTestSupport(c.Program, fd.Pos()) || inExamples(pk) {
+			return
+		}
+		info := pk.TypesInfo
+		params := map[types.Object]bool{}
+		if fn, ok := info.Defs[fd.Name].(*types.Func); ok {
+			sig := fn.Type().(*types.Signature)
+			for i := 0; i < sig.Params().Len(); i++ {
+				params[sig.Params().At(i)] = true
+			}
+			if sig.Recv() != nil {
+				params[sig.Recv()] = true
+			}
+		}
+		addrTaken := map[types.Object]bool{}
+		ast.Inspect(fd.Body, func(x ast.Node) bool {
+			if u, ok := x.(*ast.UnaryExpr); ok && u.Op == token.AND {
+				if o := identObj(info, u.X); o != nil {
+					addrTaken[o] = true
+				}
+			}
+			return true
+		})
+		var rd *reachInfo
+		fkey := core.FuncKey(pk, fd)
+		implicits := map[types.Object]bool{}
+		for _, o := range info.Implicits {
+			implicits[o] = true
+		}
+		checkCond := func(cond ast.Expr, at ast.Node) {
+			if cond == nil {
+				return
+			}
+			ast.Inspect(cond, func(x ast.Node) bool {
+				if _, isLit := x.(*ast.FuncLit); isLit {
+					return false
+				}
+				id, ok := x.(*ast.Ident)
+				if !ok {
+					return true
+				}
+				v, ok := info.Uses[id].(*types.Var)
+				if !ok || v.IsField() || params[v] || addrTaken[v] || v.Pkg() == nil || v.Parent() == v.Pkg().Scope() {
+					return true
+				}
+				if b, ok := v.Type().Underlying().(*types.Basic); !ok || b.Info()&(types.IsInteger|types.IsBoolean|types.IsFloat) == 0 {
+					return true
+				}
+				// declared inside this function
+				if v.Pos() < fd.Pos() || v.Pos() > fd.End() {
+					return true
+				}
+				if rd == nil {
+					rd = reachingDefs(info, fd)
+				}
+				if implicits[v] {
+					return true // the per-clause variable of a type switch
+				}
+				rhs, initial, ok := rd.defsAt(id, v)
+				if !ok {
+					return true
+				}
+				n++
+				onlyZero := len(rhs) > 0
+				for _, e := range rhs {
+					if bl, isLit := e.(*ast.BasicLit); !isLit || bl.Value != "0" || bl.Pos() != token.NoPos {
+						onlyZero = false
+					}
+				}
+				if (initial && len(rhs) == 0) || (!initial && onlyZero) {
+					key := fmt.Sprintf("ZEROCOND:%s#%s", fkey, v.Name())
+					out = append(out, withProps(violOb("ZEROCOND", key, c.Rel(id.Pos()), fmt.Sprintf("%s tests %s in the condition `%s`, but no assignment of %s reaches this point: it still holds its zero value, the condition is a constant and one arm is dead (the wrong variable is tested)", fkey, v.Name(), exprString(cond), v.Name())), bufProps(fkey)...))
+				}
+				return true
+			})
+		}
+		ast.Inspect(fd.Body, func(x ast.Node) bool {
+			switch v := x.(type) {
+			case *ast.FuncLit:
+				return false
+			case *ast.IfStmt:
+				checkCond(v.Cond, v)
+			case *ast.ForStmt:
+				checkCond(v.Cond, v)
+			case *ast.CaseClause:
+				for _, e := range v.List {
+					checkCond(e, v)
+				}
+			}
+			return true
+		})
+	})
+	c.Stats["zerocond_reads"] = n
+	if !c.IsFixture {
+		out = append(out, okOb("ZEROCOND", "ZEROCOND:summary", "", fmt.Sprintf("%d reads of local scalars in branch conditions have a reaching assignment", n), true))
+	}
+	return out
+}
+
+func init() {
+	core.Register(&core.Rule{Name: "ZEROCOND", Wide: true, Props: []string{"C01", "C02", "C03", "C04", "C05", "C06", "C07", "C08", "C09", "C10", "C11", "C12", "C13", "C14", "C15", "C16", "C17", "C18", "C19", "C20"},
+		Doc: "no branch condition reads a local scalar variable at a point where no assignment of it can reach (reaching definitions over go/cfg): such a condition is constant and tests the wrong variable",
+		Run: func(c *core.Ctx) []ob {
+			out := scanZeroCond(c)
+			out = append(out, control(c, "ZEROCOND", scanZeroCond, "lvfixture.wrapIndex#j")...)
+			out = append(out, core.Floor("ZEROCOND", nil, "reads of local scalars in branch conditions", c.Stats["zerocond_reads"], 1000)...)
+			return out
+		}})
+}
